@@ -96,6 +96,10 @@ def gen_plan(seed, tier):
       calls.append(dict(kind="knn", k_genuine=r.randint(1, 6), k_impostor=r.randint(1, 6),
                         points=dict(seed=r.randrange(10**6), d=r.randint(1, 4),
                                     kind=r.choice(["cont", "cont", "grid", "grid", "offset"]))))
+  rz = substream(seed, "c07-edge-seeds")
+  for c_ in calls:
+    if c_.get("rs", {}).get("kind") == "int" and rz.random() < 0.12:
+      c_["rs"]["seed"] = rz.choice([0, 0, 0, 1, 2**32 - 1])      # legal integer seeds at the ends of the range
   shared = substream(seed, "c07-shared").random() < 0.5
   if shared:
     rl = substream(seed, "c07-relabel")
